@@ -878,6 +878,18 @@ scenario_accept(void)
 	simk_closefd(lfd);
 }
 
+/* The library polls on and on while virtual time stands still. */
+static void
+on_busy(void)
+{
+
+	viol("hang:busy-loop", "1000000 consecutive polls without virtual time advancing "
+	    "(the loop spins on a descriptor that stays ready)");
+	printf("SIG %016llx 1\n", (unsigned long long)casesig);
+	fflush(NULL);
+	_exit(3);
+}
+
 int
 main(int argc, char ** argv)
 {
@@ -889,6 +901,8 @@ main(int argc, char ** argv)
 	first = strtoull(argv[2], NULL, 0);
 	count = strtoull(argv[3], NULL, 0);
 	vh_stdout_linebuf();
+	simk_busy_limit = 1000000;
+	simk_on_busy = on_busy;
 	for (i = first; i < first + count; i++) {
 		int kind;
 
